@@ -91,7 +91,15 @@ func cmdSweep(args []string) int {
 			continue
 		}
 		e := newEngine(prog)
-		res := e.verifyFunc(fc)
+		var res *FuncResult
+		func() {
+			defer func() {
+				if r := recover(); r != nil {
+					res = &FuncResult{outside: fmt.Sprint(r)} // engine limitation: skipped in a sweep
+				}
+			}()
+			res = e.verifyFunc(fc)
+		}()
 		delete(prog.contracts, k) // callers in the sweep see no contract (havoc), as without the sweep
 		if res.outside != "" {
 			skipped++
@@ -111,6 +119,7 @@ func cmdSweep(args []string) int {
 	}
 	dir, _ := os.MkdirTemp("", "govc-sweep-")
 	defer os.RemoveAll(dir)
+	fastOnly = true
 	solveAll(results, dir, *timeout, runtime.NumCPU(), false, map[string]bool{})
 	n, nsat := 0, 0
 	for _, r := range results {
